@@ -1,0 +1,72 @@
+//go:build verif
+
+// Contracts for validatedReaderBuffer, the buffer the local store hands out
+// for objects read from a block (property C04: the reader, and with it the
+// block reference, is given up exactly once per handle). Comment-only file.
+package buffer
+
+// A handle (the original or a clone) holds one reference; cloneCount is the
+// number of handles minus one. While this handle is live, nobody closes the
+// reader and the count stays non-negative.
+//@ atomic validatedReaderBuffer.cloneCount rely v >= 0
+// vrbDiscards(b): number of times a handle of b has been given up.
+//@ ghost vrbDiscards(ref) int
+//@ pure vrbLive(b) = b.r != nil && b.cloneCount >= 0
+
+//@ func newErrorReader
+//@   modifies nothing
+//@   ensures result != nil && typeis(result, "buffer.errorReader")
+//@ func newErrorChunkReader
+//@   modifies nothing
+//@   ensures result != nil && typeis(result, "buffer.errorChunkReader")
+//@ func validateReaderOffset
+//@   modifies nothing
+//@   ensures (result == nil) <==> (0 <= requested && requested <= length)
+
+//@ func (*validatedReaderBuffer).Discard
+//@   requires vrbLive(b)
+//@   modifies vrbDiscards(b), b.cloneCount, b.r
+//@   exitghost vrbDiscards(b) := old(vrbDiscards(b)) + 1
+//@   ensures [once] vrbDiscards(b) == old(vrbDiscards(b)) + 1
+
+//@ func (*validatedReaderBuffer).IntoWriter
+//@   requires vrbLive(b)
+//@   ensures [handle-given-up-once] vrbDiscards(b) == old(vrbDiscards(b)) + 1
+//@ func (*validatedReaderBuffer).ReadAt
+//@   requires vrbLive(b)
+//@   ensures [handle-given-up-once] vrbDiscards(b) == old(vrbDiscards(b)) + 1
+//@ func (*validatedReaderBuffer).ToByteSlice
+//@   requires vrbLive(b) && b.sizeBytes >= 0
+//@   ensures [handle-given-up-once] vrbDiscards(b) == old(vrbDiscards(b)) + 1
+//@   ensures [size-limit] result1 == nil ==> len(result0) == b.sizeBytes && b.sizeBytes <= maximumSizeBytes
+
+// Readers keep the handle and give it up when they are closed.
+//@ func (*validatedReaderBuffer).toUnvalidatedReader
+//@   requires vrbLive(b)
+//@   ensures result != nil
+//@   ensures [given-up-or-handed-on] (vrbDiscards(b) == old(vrbDiscards(b)) + 1 && typeis(result, "buffer.errorReader"))
+//@         || (vrbDiscards(b) == old(vrbDiscards(b)) && typeis(result, "*buffer.validatedReaderAtReader") && 0 <= off && off <= b.sizeBytes)
+//@ func (*validatedReaderBuffer).ToReader
+//@   requires vrbLive(b)
+//@   ensures result != nil && vrbDiscards(b) == old(vrbDiscards(b)) && typeis(result, "*buffer.validatedReaderAtReader")
+//@ func (*validatedReaderAtReader).Close
+//@   requires r.b != nil && vrbLive(r.b)
+//@   ensures [handle-given-up-once] vrbDiscards(r.b) == old(vrbDiscards(r.b)) + 1 && result == nil
+
+// A task runs in the foreground; whatever it returns, the handle is either
+// returned to the caller (still live) or given up.
+//@ iface vrbTask.call
+//@   modifies nothing
+//@ func (*validatedReaderBuffer).WithTask
+//@   opt funcparam task=vrbTask
+//@   requires vrbLive(b) && task != nil
+//@   ensures result != nil
+//@   ensures [handle-returned-or-given-up] (result == b && vrbDiscards(b) == old(vrbDiscards(b)))
+//@         || (typeis(result, "buffer.errorBuffer") && vrbDiscards(b) == old(vrbDiscards(b)) + 1)
+
+//@ func (*validatedReaderBuffer).CloneStream
+//@   requires vrbLive(b) && b.cloneCount < 2000000000
+//@   ensures result0 == b && result1 == b && vrbDiscards(b) == old(vrbDiscards(b))
+//@ func (*validatedReaderBuffer).CloneCopy
+//@   requires vrbLive(b) && b.cloneCount < 2000000000
+//@   ensures result0 == b && result1 == b && vrbDiscards(b) == old(vrbDiscards(b))
